@@ -2,7 +2,8 @@
 
 1. TLC checks the abstract design PluginQueue.tla (scaled caps) and exports connection
    histories (client messages interleaved with the backend's milestones) for an initial join
-   at 1.20.1 and 1.20.2+/1.20.4, a 1.20.2+ server switch, and the pre-join queue.
+   at 1.20.1 and 1.20.2+/1.20.4, a 1.20.2+ server switch, a fallback to the next
+   server after the first (ready) backend was lost in the configuration phase, and the pre-join queue.
 2. TLC checks the code-shaped PluginQueueImpl.tla (mutex respected), shows non-vacuity with
    the lock-agnostic variant, and exports every order in which the client read loop and the
    backend goroutine can pass the gate points around the configuration-phase queue.
@@ -22,7 +23,7 @@ META = {
             "custom payloads, in order; a disconnect only when a cap can have been exceeded, and always when it "
             "was exceeded while the backend was held back). PluginQueue.tla is the abstract queue design whose "
             "histories (client messages x backend milestones: login success, finish-configuration, JoinGame, "
-            "switch) TLC enumerates; PluginQueueImpl.tla is the code-shaped model of the configuration-phase "
+            "switch, loss of the first backend + fallback) TLC enumerates; PluginQueueImpl.tla is the code-shaped model of the configuration-phase "
             "queue whose gate-point orders TLC enumerates. All are replayed on the live proxy with scripted fake "
             "clients/backends, gate orders forced through verif gate points, the real caps as explicit histories, "
             "and the observations validated by TLC. Histories and schedules are the quantifier.",
@@ -153,18 +154,22 @@ def run(ctx):
         raise vlib.ToolError("%d of %d scripted connections could not even start" % (sh["aborted"], len(hists)))
     ctx.log("harness done")
     recs = vlib.read_ndjson(ctx.path("trace_sched.ndjson")) + vlib.read_ndjson(ctx.path("trace_hist.ndjson"))
-    # runs that hit the join window (known to lose messages) go last: a rejection makes TLC
-    # start over on the remainder only
-    runs_, cur = [], None
-    for rec in recs:
-        if rec.get("ev") == "reset":
-            cur = []
-            runs_.append(cur)
-        if cur is not None:
-            cur.append(rec)
-    runs_.sort(key=lambda rr: in_join_window(rr[0]))
-    recs = [rec for rr in runs_ for rec in rr]
-    rejected, matched, tstates = ctx.validate_runs("PluginQueue_Trace", recs, timeout=1800, max_rejects=25)
+    vlib.write_ndjson(ctx.path("all.ndjson"), recs)
+    ok, matched, total, res = ctx.validate_trace("PluginQueue_Trace", ctx.path("all.ndjson"), timeout=1800, n_traces=0)
+    verdict = res.printed_json("REJECTED")
+    if not ok or matched != len(recs) or not verdict:
+        raise vlib.ToolError("trace was not read completely (%d of %d lines):\n%s" % (matched, len(recs), res.tail(30)))
+    tstates = res.distinct
+    rejected = []
+    for ln in verdict[-1]["lines"]:
+        i0 = ln - 1
+        while recs[i0].get("ev") != "reset":
+            i0 -= 1
+        i1 = ln
+        while i1 < len(recs) and recs[i1].get("ev") != "reset":
+            i1 += 1
+        rejected.append({"run": recs[i0:i1], "bad_index": ln - 1 - i0, "bad": recs[ln - 1]})
+    ctx.traces_validated += sum(1 for x in recs if x.get("ev") == "reset") - len(rejected)
     ctx.log("trace validation done: %d events" % matched)
     for rj in rejected:
         ctx.finding(classify(rj), "what the backend received is not a behaviour of PluginQueueObs.tla (first "
